@@ -103,8 +103,9 @@ func selfContained(b, endName string) bool {
 			if j < 0 {
 				return false
 			}
-			if j == 0 {
-				// "{{}}": no content; the tokenizer looks further for a later }} - keep clear of it
+			if strings.TrimSpace(strings.Trim(strings.TrimSpace(b[i+2:i+2+j]), "-")) == "" {
+				// "{{}}", "{{ }}", "{{\n}}": an object needs content; for an empty one the tokenizer
+				// looks further for a later }} (found by the length-8 enumeration) - keep clear of it
 				return false
 			}
 			i += 2 + j + 2
